@@ -378,7 +378,7 @@ def _obs_hist(case):
     if case.get("empty"):
         t = t[0:0]
     steps = []
-    for op in case["ops"]:
+    for k_step, op in enumerate(case["ops"]):
         kind = op[0]
         before = t.column_names()
         base = set(object.__dir__(t))
@@ -437,7 +437,16 @@ def _obs_hist(case):
             t.cols()[op[1]].name = V.dec(op[2])
             st["res"] = ["ok"]
         elif kind == "append":
-            t = t >> Vector([fresh()], name=V.dec(op[1]))
+            if k_step % 2 and len(t.cols()) and V.dec(op[1]) is not None and isinstance(V.dec(op[1]), str):
+                # the new column comes as {label: <a LIVE column of the table>}: the label names the NEW column, the source
+                # table keeps every stored name (column additions never alter the stored names)
+                src = t
+                t = src >> {V.dec(op[1]): src.cols()[0]}
+                st["names_kept"] = _same_names(src.column_names(), before)
+                # the dict form copies the cells of the live column: give the new column the value the model expects
+                t.cols()[-1][0] = fresh()
+            else:
+                t = t >> Vector([fresh()], name=V.dec(op[1]))
             st["res"] = ["ok"]
         elif kind == "dir":
             d = dir(t)
